@@ -201,6 +201,8 @@ type ctx struct {
 	allocated     []term
 	allocFrom     int
 	lastStore     map[string][2]term
+	cellPtrs      []string
+	knownLenT     map[string]term // fresh slice reference -> the length it was created with
 	forks         int
 	lastStoreOf   map[string]string // fresh value symbol -> array version it was stored into (setter recognition)
 	siteHit       map[string]bool
@@ -667,7 +669,26 @@ func (x *ctx) asTerm(v val, t types.Type) term {
 	if v.ptr != nil {
 		if v.ptr.cell > 0 {
 			n := fmt.Sprintf("cellptr_%d", v.ptr.cell)
-			x.declare(n, sRef.name)
+			if !x.seen[n] {
+				x.declare(n, sRef.name)
+				// the address of a local variable is not nil and differs from every reference the function received and
+				// from the addresses of its other locals
+				x.decls = append(x.decls, fmt.Sprintf("(assert (not (= %s (_ bv0 64))))", n))
+				var names []string
+				for pn := range x.params {
+					names = append(names, pn)
+				}
+				sort.Strings(names)
+				for _, pn := range names {
+					if pv := x.params[pn]; pv.t.s != "" && pv.t.srt == sRef {
+						x.decls = append(x.decls, fmt.Sprintf("(assert (not (= %s %s)))", n, pv.t.s))
+					}
+				}
+				for _, o := range x.cellPtrs {
+					x.decls = append(x.decls, fmt.Sprintf("(assert (not (= %s %s)))", n, o))
+				}
+				x.cellPtrs = append(x.cellPtrs, n)
+			}
 			return term{n, sRef}
 		}
 		// pointer into a heap object: an opaque address derived from the base
@@ -797,6 +818,9 @@ func setPath(root val, path []int, v val) val {
 // ---------------------------------------------------------------- slices
 
 func (x *ctx) sliceLen(st *state, ref term) term {
+	if n, ok := x.knownLenT[ref.s]; ok {
+		return n // the length a slice value was created with never changes
+	}
 	a := x.arr(st, "Len", false, sInt)
 	return term{fmt.Sprintf("(select %s %s)", a, ref.s), sInt}
 }
@@ -1292,6 +1316,10 @@ func (x *ctx) run(st *state, fr *frame, b *ssa.BasicBlock, idx int, prev *ssa.Ba
 			ln := x.asTerm(x.get(fr, st, in.Len), in.Len.Type())
 			la := x.arr(st, "Len", false, sInt)
 			x.setArr(st, "Len", fmt.Sprintf("(store %s %s %s)", la, r.s, ln.s))
+			if x.knownLenT == nil {
+				x.knownLenT = map[string]term{}
+			}
+			x.knownLenT[r.s] = ln
 			// zeroed elements
 			elem := in.Type().Underlying().(*types.Slice).Elem()
 			if es, ok := x.leafSort(elem); ok {
